@@ -696,6 +696,7 @@ type vfBackendObs struct {
 	calls  int
 	reqs   [][]byte
 	md     []string
+	mdGrpc []string // values of grpc-previous-rpc-attempts
 	sawEOF bool
 }
 
@@ -711,6 +712,7 @@ func vfBackendRun(sc *vfBackendScript, obs *vfBackendObs, cs bool, st vfByteStre
 	obs.calls++
 	if md, ok := metadata.FromIncomingContext(st.Context()); ok {
 		obs.md = md["x-md"]
+		obs.mdGrpc = md["grpc-previous-rpc-attempts"]
 	}
 	if sc.final != nil && sc.failAt == 0 {
 		return sc.final
